@@ -306,6 +306,51 @@ func arrivalBody(kind string, maxEvents int, mode string) func() {
 	}
 }
 
+// cancelRace: deliveries overlap the cancellation of the instance. A listening catch event;
+// the context is cancelled from one goroutine while another hands over n events back-to-back
+// (more than a start event's inbox holds). Every delivery returns, whatever the node loops have
+// or have not done about the cancellation yet.
+func cancelRaceBody(kind string, n int) func() {
+	ev := sig
+	if kind == "message" {
+		ev = msg
+	}
+	g := shapes()[0].build(ev)
+	defs := g.Parse()
+	return func() {
+		order := verifrt.Choose(2)
+		r := drv.Open(g, defs, drv.OpenOpts{})
+		r.StartAll()
+		verifrt.WaitIdle()
+		if r.Listening["ca"] != 1 {
+			h.Fail("C11/cancel-race/listening", "the catch event is not listening after start")
+			return
+		}
+		returned := 0
+		deliver := func() {
+			for i := 0; i < n; i++ {
+				if kind == "message" {
+					r.Message("X")
+				} else {
+					r.Signal("X")
+				}
+				returned++
+			}
+		}
+		if order == 0 {
+			go r.Cancel()
+			go deliver()
+		} else {
+			go deliver()
+			go r.Cancel()
+		}
+		verifrt.WaitIdle()
+		if returned != n {
+			h.Fail("C11/cancel-race/consume-returns", "%d of %d ConsumeEvent calls returned while the instance was being cancelled; callers blocked: %v", returned, n, verifrt.LiveEnvGoroutines())
+		}
+	}
+}
+
 func init() {
 	h.Register("C11", func(tier string) ([]*h.Scn, []*h.Plain) {
 		var out []*h.Scn
@@ -389,6 +434,23 @@ func init() {
 					}
 					out = append(out, sc)
 				}
+			}
+		}
+		for _, kind := range []string{"signal", "message"} {
+			bounds := []int{0, 1}
+			if thorough {
+				bounds = append(bounds, 2)
+			}
+			for _, d := range bounds {
+				if d >= 1 && kind == "message" && !thorough {
+					continue
+				}
+				sc := &h.Scn{Name: fmt.Sprintf("C11/cancel-race/%s/events6/d%d", kind, d), Body: cancelRaceBody(kind, 6), Opts: verifrt.Options{Bound: d, UseCache: true}}
+				sc.Weight = 6 * (1 + 100*d*d)
+				if d >= 1 {
+					sc.Split = 4 * d
+				}
+				out = append(out, sc)
 			}
 		}
 		return out, nil
